@@ -60,7 +60,7 @@ Theorem C02_segment_image : forall passes fuel o toks cf name s,
   (g_has_data s = true -> g_range s = (range_lo ws, range_hi ws) /\
      forall a, range_lo ws <= a < range_hi ws ->
        nth (Z.to_nat (a - range_lo ws)) (range_data s) 0%N = byte_at ws a).
-Proof. exact segment_image. Qed.
+Proof. exact segment_image_splice. Qed.
 Print Assumptions C02_segment_image.
 
 (* Relocation: every logged emission carries target = pc + (target_address - initial_pc) of its segment. *)
@@ -78,7 +78,6 @@ Proof. exact vice_exact. Qed.
 Print Assumptions C02_vice_exact.
 
 (* ---- non-vacuity ---- *)
-Definition T (s : list N) := s.
 Definition sp (a b : Z) : span := (a, b).
 Definition t_fwd : text := [102; 119; 100]%N.
 Definition t_foo : text := [102; 111; 111]%N.
